@@ -102,6 +102,9 @@ def gen(rng, tier):
 def gen_b(rng, tier):
     big = tier == "thorough"
     hx = G.hx
+    # where the client connects: ports of every number of digits, host names up to the resolver's limit
+    for port in [0, 1, 9, 10, 99, 100, 999, 1000, 9999, 10000, 12345, 65535] + [rng.randrange(1, 65536) for _ in range(20)]:
+        yield "baddr %s %d" % (hx(rng.choice([b"h", b"host.example", b"10.0.0.1", b"x" * 63 + b".example"])), port)
     for i in range(60 if not big else 800):
         req = pdu(rng, rng.choice([2, 3, 5, 9, 20, 300]))
         resp = pdu(rng, rng.choice([2, 3, 4, 5, 6, 9, 17, 260, 300, 65539]) if rng.random() < 0.9 else None)
